@@ -94,7 +94,17 @@ class Calls:
         raise Unsupported('call of %r' % (callee,))
 
     # -- package functions ------------------------------------------------------------------
+    # decorators whose effect on a call is modelled (or nil): anything else changes what calling the name does
+    KNOWN_DECORATORS = ('contextmanager', 'contextlib.contextmanager', 'staticmethod', 'classmethod', 'dataclass', 'functools.wraps',
+                        'wraps', 'abstractmethod', 'abc.abstractmethod', 'property')
+
     def call_package(self, ex, fi, args, kwargs):
+        odd = [d for d in fi.decorators if d.split('(')[0] not in self.KNOWN_DECORATORS]
+        if odd:
+            # e.g. a memoising decorator: the call may hand back an object an earlier call produced
+            ex.event('unmodelled_call', '%s decorated with @%s' % (fi.qual, odd[0]))
+            return self.engine.model.stubs.unknown_call(ex, '%s decorated with @%s' % (fi.qual, odd[0]),
+                                                        [ex.to_val(a) for a in args if not isinstance(a, Pack)])
         if fi.is_generator() and 'contextmanager' not in fi.decorators:
             g = L.OpaqueV(L.OK['generator'], ex.fresh_int('gen'))
             ex.event('generator_created', fi.key, tuple(args), dict(kwargs), g)
@@ -179,7 +189,11 @@ class Calls:
 
     def inline(self, ex, fi, args, kwargs, closure_env):
         if ex.depth >= MAX_INLINE_DEPTH:
-            raise Unsupported('inline depth')
+            # helpers without a contract are inlined; a recursive one (or a very deep chain) has no contract to use
+            # instead: whatever it does is unknown
+            ex.event('unmodelled_call', 'call of %s beyond the inline depth (recursive helper without a contract)' % fi.qual)
+            return self.engine.model.stubs.unknown_call(ex, 'call of %s beyond the inline depth' % fi.qual,
+                                                        [ex.to_val(a) for a in args if not isinstance(a, Pack) and isinstance(a, z3.ExprRef)])
         env = Env(closure_env)
         self.bind(ex, fi, args, kwargs, env)
         saved = (ex.cur_module, ex.cur_class)
@@ -333,6 +347,14 @@ class Calls:
     def dynamic_call(self, ex, kind, target, args, kwargs=None):
         """abstract Op.eval contract ('op_eval') or universal callable contract ('ucc')"""
         info = {'kind': kind, 'target': target, 'args': list(args), 'kwargs': dict(kwargs or {})}
+        if kind == 'ucc' and isinstance(target, z3.ExprRef) and ex.families:
+            # the universal callable contract is justified for what a program can name (host callables by assumption,
+            # closures and builtins by proof) - not for a callable that came out of a call the model knows nothing about
+            t = L.simp(target)
+            if any(u.eq(t) or u.eq(target) for u in ex.unknown_vals):
+                from .families import fname
+                ex.prove('C02:%s:calls-no-callable-of-unknown-origin' % fname(ex), ['C01', 'C02', 'C03', 'C10', 'C13', 'C16', 'C17'],
+                         False, {'callee': str(t)[:200]}, soft=True)
         for fam in ex.families:
             fam.before_call(ex, info)
         pre = ex.heap.copy()
